@@ -117,8 +117,11 @@ def work(p):
         tdf = gm.FuncSpec(98, "td_family", [], "module", "plain")
         tdf.params = [gm.Param("d", "normal", vals=["{'a': 1}", "{'b': 'x'}", "{'a': 1, 'c': None}", "{'c': 2}", "{'c': 2, 'b': 1}"])]
         tdf.ret_vals = ["[{'q': 1}, {'r': 2}]", "[{'r': 'x', 's': 1}]", "[{'s': None}]"]
-        m.funcs += [fam, tdf]
-        m.classes.setdefault((), []).extend([fam, tdf])
+        tup = gm.FuncSpec(97, "tuple_family", [], "module", "plain")
+        tup.params = [gm.Param("t", "normal", vals=["(1,)", "(1, 2)", "(1, 2, 3)", "('a',)", "('a', 'b')", "('a', 'b', 'c')", "(1, 2, 3, 4)"])]
+        tup.ret_vals = ["1"]
+        m.funcs += [fam, tdf, tup]
+        m.classes.setdefault((), []).extend([fam, tdf, tup])
         m.render()
         try:
             tmod, path = modrun.load(d, m)
@@ -126,7 +129,7 @@ def work(p):
             res.violation("harness:module-does-not-import", repr(e), {"source": m.source})
             continue
         k = spec["k"]
-        plan = m.call_plan(rng, None, ncalls=(4, 12)) + [(fam, [v], {}) for v in fam.params[0].vals] + [(tdf, [v], {}) for v in tdf.params[0].vals]
+        plan = m.call_plan(rng, None, ncalls=(4, 12)) + [(fam, [v], {}) for v in fam.params[0].vals] + [(tdf, [v], {}) for v in tdf.params[0].vals] + [(tup, [v], {}) for v in tup.params[0].vals]
         traces = modrun.trace_plan(tmod, path, m, plan, k)
         uniq = []
         seen = set()
